@@ -202,6 +202,11 @@ class GaussianPulse(Pulse):
         assert type(scale) in valid_types, f"InputError in GaussianPulse: loc must be float but found {type(loc)}."
         assert type(scale) in valid_types, f"InputError in GaussianPulse: scale must be float but found {type(scale)}."
 
+        # Validate that loc is a position and scale a standard deviation. Otherwise the denominator below is nan, which passes
+        # the comparison with 0, and the pulse would consist of nans.
+        assert np.isfinite(loc) and np.isfinite(scale) and scale > 0, \
+            "InputError in GaussianPulse: loc must be finite and scale must be positive and finite."
+
         # Validate that the denominator used in the further calculation does not evaluate to 0
         denominator = GaussianPulse._weight(0, 1, loc, scale)
         assert denominator != 0, \
